@@ -27,6 +27,7 @@ import CelloProofs.Lemmas.TableIdeal
 import CelloProofs.Lemmas.TableRefine
 import CelloProofs.Lemmas.TableKeys
 import CelloProofs.Lemmas.TableArgs
+import CelloProofs.Lemmas.TableMark
 
 namespace Cello.Table
 open RH
@@ -79,6 +80,8 @@ theorem C02_source_as_modelled_rem : CelloGen.Table.shapeRem = CelloGen.Table.sh
 theorem C02_source_as_modelled_lookup : CelloGen.Table.shapeLookup = CelloGen.Table.shapeLookupModelled := rfl
 theorem C02_source_as_modelled_clear_resize : CelloGen.Table.shapeClearResize = CelloGen.Table.shapeClearResizeModelled := rfl
 theorem C02_source_as_modelled_iter : CelloGen.Table.shapeIter = CelloGen.Table.shapeIterModelled := rfl
+-- `Table_Mark` and `Table_Hash` (model: Cello/TableMark.lean `markLoop`/`mark`, `hashStep`/`tableHash`)
+theorem C02_source_as_modelled_mark_hash : CelloGen.Table.shapeMarkHash = CelloGen.Table.shapeMarkHashModelled := rfl
 
 /-- **C02 (core).** For every key type with decidable equality, every value type, *every hash function*, every number of
     table variables and every history of `new / set / rem / get / mem / len / iter / riter / resize / assign / copy`
@@ -252,6 +255,94 @@ example :
       = some [(11, 5)] ∧
     (specRunA some some (List.replicate 1 ([] : Spec Nat Nat)) exOwnObjects).2.map exObsNat
       = [0, 0, 0, 0, 0, 1, 0, 1, 5, 0, 77, 1, 6, 77] := by
+  decide
+
+/-! ### what the collector is told (`Table_Mark`) and what `hash(t)` answers (`Table_Hash`)
+
+    Extension round: the two functions of the class that read the whole slot array for another subsystem are in the model
+    (Cello/TableMark.lean) and in the histories (`XOp.mark`, `XOp.hash` around the operations above). -/
+
+/-- **C02 with `mark` and `hash` in the history.**  For every hash function (slot placement), every pair of element hash
+    functions `hk` / `hv` (what `hash` answers for a key / value object), every history of the operations of
+    `C02_refines_map_own_objects` interleaved with `Table_Mark(t, gc, f)` and `hash(t)`: the model never fails, keeps the
+    invariant, and observes
+      * for `mark`: calls of `f` that come in (key object, value object of the same record) pairs which — read as bindings —
+        are a permutation of the map's bindings, two calls per binding: every object the table binds is reported to the
+        collector exactly once and nothing else is (no empty record, no record twice);
+      * for `hash`: `Spec.hash hk hv m`, the xor-fold over the bindings of the map — a function of the map alone
+        (`C02_hash_depends_on_bindings_only`). -/
+theorem C02_refines_map_mark_hash (cfg : Cfg) (g : GoodCfg cfg) (hc : cfg.getChecksKey = true) (hash : κ → Nat)
+    (asKey : ν → Option κ) (asVal : κ → Option ν) (hk : κ → Nat) (hv : ν → Nat) (N : Nat) (ops : List (XOp κ ν)) :
+    ∃ ts' os, runX cfg hash asKey asVal hk hv (fresh cfg κ ν N) ops = .ok (ts', os) ∧
+      List.Forall₂ XObsRel os (specRunX asKey asVal hk hv (List.replicate N []) ops).2 ∧
+      StRel hash ts' (specRunX asKey asVal hk hv (List.replicate N []) ops).1 := by
+  obtain ⟨ts', os, h1, h2, h3⟩ := runX_refines cfg g hc hash asKey asVal hk hv ops (fresh cfg κ ν N) (List.replicate N [])
+    (strel_replicate cfg g hash N)
+  exact ⟨ts', os, h1, h3, h2⟩
+
+/-- … for the code as it is in /repo now -/
+theorem C02_mark_hash_current_source (hash : κ → Nat) (asKey : ν → Option κ) (asVal : κ → Option ν) (hk : κ → Nat)
+    (hv : ν → Nat) (N : Nat) (ops : List (XOp κ ν)) :
+    ∃ ts' os, runX cfgNow hash asKey asVal hk hv (fresh cfgNow κ ν N) ops = .ok (ts', os) ∧
+      List.Forall₂ XObsRel os (specRunX asKey asVal hk hv (List.replicate N []) ops).2 ∧
+      StRel hash ts' (specRunX asKey asVal hk hv (List.replicate N []) ops).1 :=
+  C02_refines_map_mark_hash cfgNow C02_current_source_good C02_current_source_checks_key hash asKey asVal hk hv N ops
+
+/-- … and it says the same as `C02_refines_map_own_objects` about histories without `mark` / `hash` -/
+theorem C02_mark_hash_extends_own_objects (hash : κ → Nat) (asKey : ν → Option κ) (asVal : κ → Option ν) (hk : κ → Nat)
+    (hv : ν → Nat) (N : Nat) (ops : List (AOp κ ν)) :
+    runX cfgNow hash asKey asVal hk hv (fresh cfgNow κ ν N) (ops.map .base)
+      = (runA cfgNow hash asKey asVal (fresh cfgNow κ ν N) ops).map (fun r => (r.1, r.2.map .base)) :=
+  runX_base cfgNow hash asKey asVal hk hv ops _
+
+/-- **`Table_Mark` on any table in the invariant** (every table of every reachable state): the calls of the callback are
+    (key object, value object) pairs of the records iteration yields — each bound key once —, two calls per item, and every
+    reported address is the key or the value object of an OCCUPIED record `< nslots`: the collector is never handed the
+    zeroed memory of an empty record (it would read a header there) nor anything twice. -/
+theorem C02_mark_reports_bindings (hash : κ → Nat) (t : Tab κ ν) (m : Spec κ ν) (r : Rep hash t m) :
+    (∃ ps, pairsOf (mark t) = some ps ∧ ps.Perm m ∧ (ps.map Prod.fst).Nodup) ∧ (mark t).length = 2 * t.nitems ∧
+      ∀ x ∈ mark t, ∃ (h : x.slot < t.n) (e : Entry κ ν), t.slots[x.slot] = some e ∧ (x = .key x.slot e.key ∨ x = .val x.slot e.val) := by
+  obtain ⟨h1, h2, h3⟩ := mark_spec hash t r.toWF
+  exact ⟨⟨foreach t, h1, foreach_perm hash t m r.toRep0, foreach_keys_nodup hash t r.toWF⟩, h2, h3⟩
+
+/-- **`hash(t)` depends on the bindings only** — not on the hash function that placed the records, not on collisions, growth,
+    shrinking or the order of the operations: after two arbitrary histories under two arbitrary placement hashes, two table
+    variables whose maps hold the same bindings (in any order) hash equally. -/
+theorem C02_hash_depends_on_bindings_only (h1 h2 : κ → Nat) (hk : κ → Nat) (hv : ν → Nat) (N : Nat) (ops1 ops2 : List (Op κ ν))
+    (t1 t2 : Nat) :
+    ∃ ts1 os1 ts2 os2, run cfgNow h1 (fresh cfgNow κ ν N) ops1 = .ok (ts1, os1) ∧ run cfgNow h2 (fresh cfgNow κ ν N) ops2 = .ok (ts2, os2) ∧
+      ∀ (a1 : t1 < ts1.length) (a2 : t2 < ts2.length) (b1 : t1 < (specRun (List.replicate N ([] : Spec κ ν)) ops1).1.length)
+        (b2 : t2 < (specRun (List.replicate N ([] : Spec κ ν)) ops2).1.length),
+        ((specRun (List.replicate N ([] : Spec κ ν)) ops1).1[t1]).Perm ((specRun (List.replicate N ([] : Spec κ ν)) ops2).1[t2]) →
+        tableHash hk hv ts1[t1] = tableHash hk hv ts2[t2] := by
+  obtain ⟨ts1, os1, e1, _, R1⟩ := C02_current_source h1 N ops1
+  obtain ⟨ts2, os2, e2, _, R2⟩ := C02_current_source h2 N ops2
+  refine ⟨ts1, os1, ts2, os2, e1, e2, ?_⟩
+  intro a1 a2 b1 b2 p
+  rw [tableHash_rep h1 hk hv _ _ (R1.2 t1 a1 b1).toRep0, tableHash_rep h2 hk hv _ _ (R2.2 t2 a2 b2).toRep0]
+  exact specHash_perm hk hv p
+
+/-- (the history of the example below) -/
+def exMarkHash : List (XOp Nat Nat) :=
+  [.base (.plain (.set 0 0 1)), .base (.plain (.set 0 5 2)), .base (.plain (.set 0 10 3)), .base (.plain (.set 0 4 9)),
+   .base (.plain (.set 1 10 8)), .base (.plain (.set 1 4 9)), .base (.plain (.set 1 5 2)), .base (.plain (.set 1 0 1)),
+   .base (.plain (.set 1 10 3)), .base (.plain (.len 1)), .hash 0, .hash 1, .mark 0, .mark 1, .base (.plain (.resize 1 0)), .mark 1, .hash 1, .mark 7]
+def exXObsNat (o : XObs Nat Nat) : List Nat :=
+  match o with
+  | .hashed h => [h]
+  | .marked l => l.map (fun x => match x with | .key i k => 100 * i + k | .val i v => 1000 + 100 * i + v)
+  | .base _ => [77]
+
+/-- Int → Int, keys 0, 5, 10 (one cluster at 5 slots) and 4 bound in two different orders in two table variables, table 1
+    updating one binding in between: the slot arrays differ, iteration order differs, `hash` agrees;
+    `mark` reports each table's records in its own slot order, key object then value object; a table emptied by
+    `resize(t, 0)` (no slots) reports nothing and hashes to 0; a table variable that does not exist: `badOp`. -/
+example :
+    ((runX cfgNow hid some some hid hid (fresh cfgNow Nat Nat 2) exMarkHash).toOption.map
+        (fun r => (r.1.map slotList', (r.2.drop 10).map exXObsNat))
+      == some ([[(0, 0, 0, 1), (1, 0, 5, 2), (2, 0, 10, 3), (4, 4, 4, 9)], []],
+              [[2], [2], [0, 1001, 105, 1102, 210, 1203, 404, 1409],
+               [10, 1003, 105, 1102, 200, 1201, 404, 1409], [77], [], [0], [77]])) = true := by
   decide
 
 /-! ### corollaries -/
